@@ -151,3 +151,40 @@ def run_main(argv, cwd=None, cfgdir=None):
         root.setLevel(saved_root[1])
         r.stdout, r.stderr = out.getvalue(), err.getvalue()
     return r
+
+
+def parse_commands(source):
+    """CMinx's own view of a source text through its public parser package: [(name, [flattened raw args])].
+    Parenthesised groups are flattened with "(" and ")" tokens.  Raises what the parser raises."""
+    use_repo_source()
+    from antlr4 import InputStream, CommonTokenStream
+    from cminx.parser import ParserErrorListener
+    from cminx.parser.CMakeLexer import CMakeLexer
+    from cminx.parser.CMakeParser import CMakeParser
+    err = io.StringIO()
+    with contextlib.redirect_stderr(err):
+        lexer = CMakeLexer(InputStream(source))
+        parser = CMakeParser(CommonTokenStream(lexer))
+        parser.addErrorListener(ParserErrorListener())
+        tree = parser.cmake_file()
+    out = []
+
+    def flat(ctx, acc):
+        for ch in ctx.getChildren():
+            if isinstance(ch, CMakeParser.Single_argumentContext):
+                acc.append(ch.getText())
+            elif isinstance(ch, CMakeParser.Compound_argumentContext):
+                acc.append("(")
+                flat(ch, acc)
+                acc.append(")")
+
+    def visit(ctx):
+        for ch in ctx.getChildren():
+            if isinstance(ch, CMakeParser.Command_invocationContext):
+                acc = []
+                flat(ch, acc)
+                out.append((ch.Identifier().getText(), acc))
+            elif isinstance(ch, CMakeParser.Documented_commandContext):
+                visit(ch)
+    visit(tree)
+    return out, err.getvalue()
